@@ -8,6 +8,7 @@ import (
 	"go/ast"
 	"go/types"
 	"os"
+	"path/filepath"
 	"sort"
 	"strconv"
 	"strings"
@@ -201,6 +202,12 @@ func main() {
 					}
 					p3, err3 := ir.LoadOverlay(*repo, merged)
 					if err3 != nil {
+						if os.Getenv("NVET_DEBUG_INL") != "" {
+							fmt.Fprintf(os.Stderr, "round %d load failed: %v\n", round, err3)
+							for k, v := range more {
+								os.WriteFile("/tmp/nvet_failed_"+filepath.Base(k), v, 0o644)
+							}
+						}
 						inlineNote = fmt.Sprintf("inlining round %d was abandoned (the rewritten source did not load: %v); the result of the previous round was analysed", round, err3)
 						break
 					}
